@@ -232,6 +232,7 @@ def _initial_edits(u) -> list[str]:
 
 def run(ctx: Ctx, jobs: list[dict] | None = None) -> Result:
     _install_mid_write_kill()
+    jobs_given = jobs
     jobs = jobs if jobs is not None else make_jobs(ctx)
     tot: Counter = Counter()
     violations: list[Violation] = []
@@ -247,10 +248,35 @@ def run(ctx: Ctx, jobs: list[dict] | None = None) -> Result:
         if len(samples) < 5:
             samples.extend(val["samples"][:1])
         herr.extend(val["herr"])
+    # ---- parallel lane: coordinator + every worker of a controlled parallel build (mc/c04_parallel.py)
+    from mc import c04_parallel
+
+    par_tot: Counter = Counter()
+    par_ops = []
+    if jobs_given is None:
+        pjobs = c04_parallel.make_jobs(ctx.quick)
+        for _i, job, st, val in pmap(c04_parallel.explore_job, pjobs, fresh=False, jobs=6, timeout=7200):
+            if st != "ok":
+                herr.append(f"parallel job {job} failed: {val}")
+                continue
+            par_tot["fault_runs"] += val["fault_runs"]
+            par_tot["recovery_runs"] += val["recovery_runs"]
+            par_ops.append({"program": job["program"], "store": job["store"], "edit": job["edit"],
+                            "store_ops_per_process": val["ops"], "fault_runs": val["fault_runs"]})
+            for v in val["violations"]:
+                violations.append(Violation(v["signature"], v["what"], v["detail"]))
+            samples.extend(val["samples"][:1])
+            herr.extend(val["herr"])
+        if par_tot["fault_runs"] < 20:
+            raise RuntimeError(f"parallel fault lane vacuous: {dict(par_tot)} {herr[:2]}")
     if tot["base_nontrivial"] < 5 or tot["fault_runs"] < 100:
         raise RuntimeError(f"vacuous: {dict(tot)}")
     cov = {
-        "evaluations": tot["fault_runs"] + tot["recovery_runs"],
+        "evaluations": tot["fault_runs"] + tot["recovery_runs"] + par_tot["fault_runs"] + par_tot["recovery_runs"],
+        "parallel_lane": {"fault_runs": par_tot["fault_runs"], "recovery_runs": par_tot["recovery_runs"],
+                          "instances": par_ops,
+                          "rule": "controlled default schedule, N=2; kill before/after EVERY store op of the coordinator and "
+                                  "of each worker, and every single failed write; then a sequential warm run vs cold"},
         "distinct_nontrivial": tot["base_nontrivial"],
         "rule": "one evaluation = one real build under one fault plan, or its recovery run; a base transition is "
                 "non-trivial iff its clean run re-checked some but not all user modules (warm, partially stale cache); "
@@ -264,7 +290,7 @@ def run(ctx: Ctx, jobs: list[dict] | None = None) -> Result:
         "exhaustive": True, "samples": samples[:5], "violating_executions": len(violations),
     }
     return Result(PROPERTY, LEVEL, cov, violations, assumptions=[
-        "single-process build only in this lane (coordinator/worker lane: see C07/C04-parallel in DESIGN)",
+        "parallel lane: default schedule only (schedule x fault products are not enumerated), single faults",
         "kill = os._exit at a store-operation boundary or between temp-file write and rename; page-cache loss "
         "(power failure) is not modelled",
         "fixture stubs on both sides",
